@@ -316,6 +316,7 @@ static int decrunch_mmcmp(HIO_HANDLE *in, void **out, long *outlen)
 	struct mem_buffer outbuf;
 	uint32 *table;
 	uint32 i, j;
+	uint32 total_unpk = 0;
 
 	/* Read file header */
 	if (hio_read32l(in) != 0x4352697A)		/* ziRC */
@@ -422,6 +423,16 @@ static int decrunch_mmcmp(HIO_HANDLE *in, void **out, long *outlen)
 				free(sub_block);
 				goto err2;
 			}
+
+			/* Every output byte is written once: the sub-blocks of all
+			 * blocks together can't be larger than the unpacked file.
+			 * (Block table entries may repeat or overlap, which would
+			 * otherwise unpack the same data up to 65535 times.) */
+			if ((uint32)sub_block[j].unpk_size > (uint32)h.filesize - total_unpk) {
+				free(sub_block);
+				goto err2;
+			}
+			total_unpk += sub_block[j].unpk_size;
 		}
 
 		if (~block.flags & MMCMP_COMP) {
